@@ -4,11 +4,13 @@ package proxy
 // HttpProxy!BuildTarget / Respond / NoRoute prescribe for the case.
 
 import (
+	"bufio"
 	"errors"
 	"fmt"
 	"net"
 	"net/http"
 	"strings"
+	"sync"
 	"testing"
 
 	"github.com/fabiolb/fabio/internal/verifx"
@@ -226,8 +228,119 @@ func c07BadGateway(w *cvxWorld, j *cvxJob, fail func(clause, format string, a ..
 	return true
 }
 
+// c07SimRounds: how often each of the simultaneous requests is repeated over its connection
+func c07SimRounds() int {
+	if n := verifx.EnvInt("VERIF_C07_SIM_ROUNDS", 0); n > 0 {
+		return n
+	}
+	if verifx.Thorough() {
+		return 1200
+	}
+	return 400
+}
+
+// c07Together: the requests of c.hist are in fabio at the same moment (HttpProxy!TogetherUps): each of them is sent
+// over a connection of its own, opened beforehand, all released at once, and repeated over that connection so
+// that they keep overlapping.  Every upstream request must be the one made from ITS request alone.
+func c07Together(w *cvxWorld, j *cvxJob) bool {
+	cs := j.cs
+	if len(cs.Each) != len(cs.C.Hist) {
+		w.errorf("case %d: %d simultaneous requests with %d expected upstream requests", j.id, len(cs.C.Hist), len(cs.Each))
+		return false
+	}
+	rounds := c07SimRounds()
+	var wg sync.WaitGroup
+	start := make(chan struct{})
+	for k, rq := range cs.C.Hist {
+		step := *cs
+		step.C.Hist, step.Each, step.Conn = nil, nil, nil
+		step.C.Path, step.C.Query, step.C.HostLabel, step.C.RHost = rq.Path, rq.Query, rq.Host, rq.RHost
+		step.Up.Path, step.Up.Query = cs.Each[k].Path, cs.Each[k].Query
+		step.Att = &cvxAtt{}
+		step.parent, step.step = cs, k+1
+		conn, err := w.cvxOpenConn(&step)
+		if err != nil {
+			w.errorf("case %d: %v", j.id, err)
+			continue
+		}
+		base := j.id + int64(k+1)<<34
+		wg.Add(1)
+		go func(st *cvxCase, k int) {
+			defer wg.Done()
+			defer conn.Close()
+			br := bufio.NewReader(conn)
+			fail := func(clause, format string, a ...any) {
+				f := c07Features(st, clause)
+				f["simultaneous"], f["step"] = true, k+1
+				verifx.Fail(cs, f, "%s (request %d of %d that are in the proxy at the same moment through one route)\n  case: %s",
+					fmt.Sprintf(format, a...), k+1, len(cs.C.Hist), c07Describe(st))
+			}
+			wantURI, wantHost := c07WantURI(st), c07WantHost(w, st)
+			<-start
+			if p, stack := verifx.Safely(func() { c07SimLoop(w, j, st, k, conn, br, base, rounds, wantURI, wantHost, fail) }); p != nil {
+				verifx.Fail(cs, map[string]any{"clause": "panic", "sub": cs.C.Sub}, "panic: %v\n%s", p, stack)
+			}
+		}(&step, k)
+	}
+	close(start)
+	wg.Wait()
+	return true
+}
+
+func c07SimLoop(w *cvxWorld, j *cvxJob, st *cvxCase, k int, conn net.Conn, br *bufio.Reader, base int64, rounds int, wantURI, wantHost string, fail func(clause, format string, a ...any)) {
+	for n := 0; n < rounds; n++ {
+		rid := base + int64(n)<<cvxAttemptShift
+		w.plans.Store(rid, &cvxPlan{Status: 200, Body: 1})
+		got, err := cvxRawGet(conn, br, st, rid)
+		w.plans.Delete(rid)
+		if err != nil {
+			w.errorf("case %d request %d round %d: %v (%s)", j.id, k+1, n, err, c07Describe(st))
+			return
+		}
+		seen := w.take(rid)
+		if seen == nil {
+			fail("upstream-missing", "the upstream was not contacted (client got status %d)", got.Status)
+			return
+		}
+		bad := false
+		if seen.Method != st.Up.Method {
+			fail("method", "upstream saw method %q, want %q", seen.Method, st.Up.Method)
+			bad = true
+		}
+		if seen.RequestURI != wantURI {
+			gp, gq, _ := strings.Cut(seen.RequestURI, "?")
+			wp, wq, _ := strings.Cut(wantURI, "?")
+			if gp != wp {
+				fail("path", "upstream saw request target %q, want %q", seen.RequestURI, wantURI)
+			}
+			if gq != wq || gp == wp {
+				fail("query", "upstream saw query %q, want %q", gq, wq)
+			}
+			bad = true
+		}
+		if seen.Host != wantHost {
+			fail("host", "upstream saw Host %q, want %q", seen.Host, wantHost)
+			bad = true
+		}
+		if got.Status != 200 || got.BodyLen != 1 {
+			fail("status", "client got status %d and %d body bytes, the upstream answered 200 with 1", got.Status, got.BodyLen)
+			bad = true
+		}
+		if bad {
+			return
+		}
+	}
+}
+
 func c07Exec(w *cvxWorld, j *cvxJob) bool {
 	cs := j.cs
+	if cs.C.Together && len(cs.C.Hist) > 0 {
+		nt := false
+		if p, stack := verifx.Safely(func() { nt = c07Together(w, j) }); p != nil {
+			verifx.Fail(cs, map[string]any{"clause": "panic", "sub": cs.C.Sub}, "panic: %v\n%s", p, stack)
+		}
+		return nt
+	}
 	fail := func(clause, format string, a ...any) {
 		verifx.Fail(cs, c07Features(cs, clause), "%s\n  case: %s", fmt.Sprintf(format, a...), c07Describe(cs))
 	}
@@ -338,4 +451,10 @@ func c07Exec(w *cvxWorld, j *cvxJob) bool {
 
 func TestVerifC07(t *testing.T) {
 	(&cvxRunner{prop: "C07", exec: c07Exec, sample: c07Describe}).run(t)
+}
+
+// TestVerifC07Sim is TestVerifC07 under another name: the check runs the cases with simultaneous requests a
+// second time with the race detector.
+func TestVerifC07Sim(t *testing.T) {
+	TestVerifC07(t)
 }
